@@ -1,6 +1,7 @@
 use crate::core::Cx;
 
 pub mod c02;
+pub mod c03;
 pub mod c06;
 pub mod c07;
 pub mod c08;
@@ -20,6 +21,7 @@ pub mod c20;
 pub fn run(id: &str, cx: &mut Cx) -> bool {
     match id {
         "C02" => c02::run(cx),
+        "C03" => c03::run_prop(cx),
         "C06" => c06::run(cx),
         "C07" => c07::run(cx),
         "C08" => c08::run(cx),
